@@ -402,4 +402,61 @@ theorem ins_exec (R : Ro) (hs : List Nat) (hb : R.b = builder hs) (st : St) (tag
   simp only []
   split <;> rfl
 
+/-! ### Draw -/
+
+/-! #### the walk back to an existing top widget -/
+
+def clBody : Stmt := match draw2 with | .loop _ b _ => b | _ => .skip
+def clCond : Expr := match draw2 with | .loop c _ _ => c | _ => .none
+theorem draw2_eq : draw2 = .loop clCond clBody .skip := rfl
+
+theorem cl_cond (R : Ro) (hs : List Nat) (hb : R.b = builder hs) (m : M) :
+    evB R m clCond = some (decide (m.st.top > 0) && (builder hs m.st.top).isNone) := by
+  by_cases h : m.st.top > 0
+  · have h' : (0 : Int) < m.st.top := by omega
+    xs [clCond, draw2, hb, h, h']
+  · have h' : ¬ ((0 : Int) < m.st.top) := by omega
+    xs [clCond, draw2, hb, h, h']
+
+theorem cl_body (R : Ro) (m : M) (F : Nat) (x : Nat) (hx : usubI ↑m.st.top 1 = ↑x) (hxl : x < 2 ^ 64) :
+    exec R clBody F m = .ok ({ m with st := { m.st with top := x, offset := 0 } }, .norm) := by
+  xs [clBody, draw2, hx, toUint_cast _ hxl]
+
+theorem exec_skip (R : Ro) (f : Nat) (m : M) : exec R .skip f m = .ok (m, .norm) := rfl
+
+theorem cl_loop (R : Ro) (hs : List Nat) (hb : R.b = builder hs) (cursor : Nat) (pending : Int) (wants : Bool)
+    (cs : List Child) (ρ : List (String × Int)) (us : List String) (tag : String) :
+    ∀ (n top : Nat) (offset : Int) (F : Nat), top < 2 ^ 64 → top ≤ n → top + 1 ≤ F →
+      loopN (fun m => evB R m clCond) (exec R clBody) (exec R .skip) F ⟨⟨cursor, top, offset, pending, wants⟩, cs, ρ, us, tag⟩ =
+        .ok (⟨⟨cursor, (clampLoop hs n top offset).1, (clampLoop hs n top offset).2, pending, wants⟩, cs, ρ, us, tag⟩, .norm) := by
+  intro n
+  induction n with
+  | zero =>
+    intro top offset F hlt hn hF
+    obtain ⟨F', rfl⟩ : ∃ F', F = F' + 1 := ⟨F - 1, by omega⟩
+    have h0 : decide (top > 0) = false := by simp; omega
+    rw [loopN, cl_cond R hs hb]
+    simp only [h0, Bool.false_and, clampLoop]
+  | succ n ih =>
+    intro top offset F hlt hn hF
+    obtain ⟨F', rfl⟩ : ∃ F', F = F' + 1 := ⟨F - 1, by omega⟩
+    rw [loopN, cl_cond R hs hb]
+    unfold clampLoop
+    by_cases hc : top > 0 ∧ builder hs top = none
+    · have hu := usub_one top (Nat.ne_of_gt hc.1) hlt
+      simp only [hc.1, hc.2, decide_true, Option.isNone_none, Bool.and_self, and_self, ↓reduceIte]
+      rw [cl_body R ⟨⟨cursor, top, offset, pending, wants⟩, cs, ρ, us, tag⟩ F' (usub top 1) (toUintI_sub1 top hlt) (usub_lt _ _)]
+      simp only []
+      rw [exec_skip]
+      simp only []
+      exact ih (usub top 1) 0 F' (usub_lt _ _) (by omega) (by omega)
+    · have : (decide (top > 0) && (builder hs top).isNone) = false := by
+        by_cases h1 : top > 0
+        · have : ¬ builder hs top = none := fun h => hc ⟨h1, h⟩
+          cases hb' : builder hs top with
+          | none => exact absurd hb' this
+          | some _ => simp
+        · simp [h1]
+      simp only [this, hc, ↓reduceIte]
+
 end VaxisModel.Lemmas.DynExec
